@@ -128,6 +128,8 @@ type AbsTx struct {
 	Res   []AbsRes          `json:"res"`
 	Fnd   string            `json:"fnd"`
 	Fauth string            `json:"fauth"`
+	Att   int               `json:"att"`
+	Aauth string            `json:"aauth"`
 	Tag   string            `json:"tag"`
 	Slack int               `json:"slack"`
 }
@@ -164,6 +166,7 @@ type Post struct {
 	H    uint64            `json:"h"`
 	Pool uint64            `json:"pool"`
 	Fnd  struct{ P, M string } `json:"fnd"`
+	Att  uint64            `json:"att"`
 	SC   [][]json.RawMessage `json:"sc"` // <<id, val, addr, mat>>
 	SF   [][]json.RawMessage `json:"sf"` // <<id, val, addr, cs>>
 	C1   [][]json.RawMessage `json:"c1"` // <<id, contract>>
